@@ -147,8 +147,6 @@ func runC04(c *core.Ctx) *core.Violation {
 		e.Src.Stream = stream
 		e.Src.Release = rel
 		e.Src.RDB, rdbRecs = smallRDB(t, 1+t.Choose(3))
-		var tgtClients []*simnet.Conn
-		e.Tgt.L.OnAccept = func(cl, sv *simnet.Conn) { tgtClients = append(tgtClients, cl) }
 		defer func() { diag = e.Diag() }()
 
 		e.StartTool()
@@ -169,12 +167,12 @@ func runC04(c *core.Ctx) *core.Violation {
 			if k == len(cuts) {
 				break
 			}
-			if len(dataLog(e.Tgt)) >= len(want) && s.Now() > lastRelease {
+			if len(e.IncrLog()) >= len(want) && s.Now() > lastRelease {
 				break // nothing left to interrupt
 			}
 			// ---- inject cut k
 			cs := cuts[k]
-			inc := tgtClients[len(tgtClients)-1] // the incremental connection is the last one this incarnation opened
+			inc := e.TgtClients[len(e.TgtClients)-1] // the incremental connection is the last one this incarnation opened
 			switch cs.kind {
 			case 0:
 				inc.CutAfterTotal(inc.WriteSum + int64(cs.bytes))
